@@ -127,9 +127,7 @@ def check_case(case):
                 if (n.tzh, n.tzm) != dest:
                     fail = "offset: asked for %r, result carries (%r, %r)" % (
                         dest, n.tzh, n.tzm)
-                elif n.problems and (int_class or not all(
-                        pr.split()[0] in ("hour", "minute", "second")
-                        for pr in n.problems)):
+                elif n.problems:
                     fail = "fields_valid: mode %s %s -> %r: %s" % (
                         mode, M.fmt_kw(kw), n.f, "; ".join(n.problems))
                 elif n.instant is not None and abs(n.instant - ip) > tol:
